@@ -769,7 +769,7 @@ class XsdAtomicBuiltin(XsdAtomic):
             elif self.name == nm.XSD_IDREF:
                 if obj not in context.id_map:
                     context.id_map[obj] = 0
-            elif context.level:
+            else:
                 if context.id_list is None:
                     if not context.id_map[obj]:
                         context.id_map[obj] = 1
